@@ -142,9 +142,13 @@ func (env *sessionEnv) snap() ([]nodeJ, string, error) {
 	}
 	// only this connection's subtree is walked (the others are changing under their owners' hands), and only this
 	// connection's uploads may explain what is found there
-	all, _, err := env.w.snapshotAt(env.priv, func(name string) bool { return env.ownChunks[name] })
-	if err != nil {
-		return nil, "", err
+	var all []nodeJ
+	if _, serr := os.Lstat(segPath(env.w.root, env.priv)); serr == nil { // (a world without private subtrees has nothing to re-read)
+		var err error
+		all, _, err = env.w.snapshotAt(env.priv, func(name string) bool { return env.ownChunks[name] })
+		if err != nil {
+			return nil, "", err
+		}
 	}
 	nodes := append([]nodeJ{}, env.shared...)
 	h := sha256.New()
